@@ -54,3 +54,34 @@ Example C04_wf_example : qwf (Square [:: 1; 2; 3]%R
    (MkTri 3 1 [:: [:: 1]; [:: 2]; [:: 3]] [:: [:: 1]; [:: 1]; [:: 1]] [:: [:: [:: 2]]; [:: [:: 2]]; [:: [:: 2]]])
    : qsm rat_fieldType).
 Proof. by []. Qed.
+
+(* ---- right-hand sides of ANY rank: the reshape wrapper handle_matvec_shapes (model: Model/Reshape.v, arrays are nested lists) ----
+   reshape(flatten t) = t for well-shaped arrays, and the wrapped product acts on each multi-index idx of the trailing axes:
+   (A @ x)[i, idx] = sum_j A[i, j] x[j, idx], for all seven square kinds and for the rectangular form *)
+From TinyGP Require Import Model.Reshape Theory.ReshapeThy.
+Theorem C04_reshape_roundtrip (F : fieldType) sq lt ds (t : nd F) : shaped ds t -> unflat (fops sq lt) ds (flat t) = t.
+Proof. exact: unflat_flat. Qed.
+Print Assumptions C04_reshape_roundtrip.
+
+Lemma size_qmatmul (F : fieldType) sq lt c (A : qsm F) (x : mat F) : size (qmatmul (fops sq lt) c A x) = qsize A.
+Proof. by case: A => *; rewrite /= size_mkseq. Qed.
+
+Theorem C04_matmul_any_rank (F : fieldType) sq lt (A : qsm F) ds (x : seq (nd F)) (i : 'I_(qsize A)) idx :
+  qwf A -> size x = qsize A -> all (shaped ds) x -> valid ds idx ->
+  get (fops sq lt) (nth (Sc 0) (wrap (fops sq lt) (qmatmul (fops sq lt) (prodn ds) A) ds x) i) idx
+  = \sum_(j < qsize A) den (qsize A) A i j * get (fops sq lt) (nth (Sc 0) x j) idx.
+Proof.
+move=> wf sx al vi; apply: wrap_linear => //; first exact: size_qmatmul.
+exact: qmatmul_den.
+Qed.
+Print Assumptions C04_matmul_any_rank.
+
+Theorem C04_general_matmul_any_rank (F : fieldType) sq lt (G : gqsm F) ds (x : seq (nd F)) (i : 'I_(gn1 G)) idx :
+  size x = gn2 G -> all (shaped ds) x -> valid ds idx ->
+  get (fops sq lt) (nth (Sc 0) (wrap (fops sq lt) (gmatmul (fops sq lt) (prodn ds) G) ds x) i) idx
+  = \sum_(j < gn2 G) gden G i j * get (fops sq lt) (nth (Sc 0) x j) idx.
+Proof.
+move=> sx al vi; apply: wrap_linear => //; first by rewrite /gmatmul size_mkseq.
+exact: gmatmul_den.
+Qed.
+Print Assumptions C04_general_matmul_any_rank.
